@@ -301,6 +301,26 @@ def control_deps(fn, dead):
     return cd, succ
 
 
+def file_field_taint(prog, files, summ):
+    """{file: set of F:<record>.<field> keys that some function of the file assigns a symbol-derived value to};
+    iterated, so a helper that copies operand->value into another record's field propagates the taint."""
+    out = {}
+    fns = [fn for fn in prog.fns.values() if fn.file in files and fn.blocks]
+    for _ in range(4):
+        changed = False
+        for fn in fns:
+            fi = FnInfo(prog, fn, summ)
+            fi.taint |= out.get(fn.file, set())
+            fi.solve()
+            for kk in fi.taint:
+                if kk.startswith('F:') and kk not in out.setdefault(fn.file, set()):
+                    out[fn.file].add(kk)
+                    changed = True
+        if not changed:
+            break
+    return out
+
+
 def summaries(prog, files):
     """Per function: pointer parameters that receive a symbol-derived value (out), whether the return value is
     symbol-derived (ret), pointer parameters / return that carry the memo."""
@@ -593,6 +613,8 @@ class FlowTaint:
     def _solve(self):
         fn = self.fn
         self.inn = {b: set() for b in fn.blocks}
+        # record fields that some function of the same file fills with a symbol-derived value are tainted on entry
+        self.inn[fn.entry] = set(getattr(self.fi, 'file_fields', ()))
         work = [fn.entry]
         out_cache = {}
         while work:
